@@ -157,12 +157,35 @@ int main(int argc, char **argv) {
                 int newmem = (vh_step & 1);
                 narr = 0;
                 if (ts) V->lock(V);
-                while (V->getnext(V, &o, newmem)) {
-                    if (narr < 8192) arrids[narr] = idof(o.data);
-                    narr++;
-                    if (newmem) free(o.data);
+                int again = 0;
+                for (;;) {
+                    errno = 0;
+                    if (V->getnext(V, &o, newmem)) {
+                        if (narr < 8192) arrids[narr] = idof(o.data);
+                        narr++;
+                        if (newmem) free(o.data);
+                        continue;
+                    }
+                    /* a step that reports a failed allocation has no effect: the same call again (nothing fails any more) delivers
+                     * the element it could not copy, and the walk goes on to the end */
+                    if (errno == ENOMEM && vh_failed > 0 && again < 2) { again++; vh_fail_at = 0; vh_fail_from = 0; continue; }
+                    break;
                 }
                 ok = (errno == ENOENT);
+                if (ok && !inject && V->num < V->max && V->num > 0) {
+                    /* the refused step at the end has no effect either: refused once more, and an element appended now (into spare
+                     * capacity) is the next one the same cursor delivers.  A failure shows as an element -7 at the end of the walk. */
+                    int more = V->getnext(V, &o, newmem);
+                    mk(arg, 2);
+                    if (V->addlast(V, arg)) {
+                        int got = V->getnext(V, &o, newmem), id = got ? idof(o.data) : -1;
+                        if (got && newmem) free(o.data);
+                        V->removelast(V);
+                        if (more || !got || id != 2) { if (narr < 8192) arrids[narr] = -7; narr++; }
+                        errno = ENOENT;
+                    }
+                    mk(arg, v);
+                }
                 if (ts) V->unlock(V);
                 rv = ok ? narr : 0;
             }
